@@ -158,6 +158,8 @@ func Scalars() []Named {
 		N("json.Number int", json.Number("12")), N("json.Number float", json.Number("2.5e1")), N("json.Number junk", json.Number("x")), N("[]byte", []byte("bytes")), N("rune", 'x'), N("byte", byte('y')),
 		N("error", errors.New("an error")), N("time.Duration", 90*time.Second), N("time.Month", time.March), N("time.Time", time.Date(2021, 3, 4, 5, 6, 7, 0, time.UTC)), N("time.Time zero", time.Time{}),
 		N("*big.Int", big.NewInt(42)), N("big.Float", *big.NewFloat(1.5)), N("url.URL", url.URL{Scheme: "http", Host: "h"}), N("net.IP", net.IP{127, 0, 0, 1}), N("os.FileMode", os.FileMode(0o644)),
+		N("nil *time.Time", (*time.Time)(nil)), N("*time.Time", func() *time.Time { t := time.Date(2020, 2, 29, 23, 59, 59, 0, time.UTC); return &t }()), N("nil *big.Int", (*big.Int)(nil)), N("nil *big.Float", (*big.Float)(nil)), N("nil *url.URL", (*url.URL)(nil)),
+		N("nil *decimal.Decimal", (*decimal.Decimal)(nil)), N("*decimal.Decimal", func() *decimal.Decimal { d := decimal.NewFromFloat(2.5); return &d }()), N("nil *json.Number", (*json.Number)(nil)), N("nil *time.Duration", (*time.Duration)(nil)), N("nil *net.IP", (*net.IP)(nil)), N("nil *[]byte", (*[]byte)(nil)), N("nil *error", (*error)(nil)),
 		N("typed nil in iface slice", []interface{}{(*int)(nil)}), N("[2]string", [2]string{"a", "b"}), N("struct{}", struct{}{}), N("*struct{}", &struct{}{}), N("**int", func() **int { i := 3; p := &i; return &p }()),
 		N("embeds Stringer/Number/Boolean holding typed nil pointers", EmbedsIfaces{Stringer: (*ValStringer)(nil), Number: (*ValNumber)(nil), Boolean: (*ValBoolean)(nil)}), N("two nil embedded pointers, the second has String", TwoEmbedded{}),
 		N("*UserSafe", &UserSafe{Inner: "<us>", Types: []string{"html"}}), N("nil *ValStringer", (*ValStringer)(nil)), N("nil *ValNumber", (*ValNumber)(nil)), N("nil *ValBoolean", (*ValBoolean)(nil)),
